@@ -1,4 +1,5 @@
 import MorfuseModel.Lang.IntEncLemmas
+import MorfuseModel.Emit.Model
 import MorfuseModel.Lang.PrecTable
 import MorfuseModel.Lang.PrecCongr
 import MorfuseModel.Lang.Desugar
@@ -19,6 +20,47 @@ theorem C03_literal_roundtrip (v : BitVec 64) : decodeInt (encodeInt v) = some v
 example : decodeInt (encodeInt 65536#64) = some 65536#64 := C03_literal_roundtrip _
 example : encodeInt 65536#64 = ⟨3, [0, 0, 1]⟩ := by decide
 example : encodeInt 4294967296#64 = ⟨8, [0, 0, 0, 0, 1, 0, 0, 0]⟩ := by decide
+
+/-- the opcode `OP_STORE_INTk` -/
+def storeIntOp (k : Nat) : Nat :=
+  if k = 8 then Gen.EmitConsts.OP_STORE_INT8 else Gen.EmitConsts.OP_STORE_INT0 + k
+
+theorem le_eq_toBytes (w n : Nat) : Emit.le w n = toBytes n w := by
+  induction w generalizing n with
+  | zero => rfl
+  | succ w ih => simp [Emit.le, toBytes, ih]
+
+/-- **C03 / C01, the two transcriptions of `ScriptEmitter::EmitInteger` agree.**  `Lang.IntEnc.encodeInt` (over the
+    branch table regenerated from `Compiler.cpp`) and `Emit.St.emitInteger` (the emitter model whose output the C01
+    correspondence compares byte for byte with the real compiler) choose the same opcode and write the same operand
+    bytes, for every 64-bit value, from every emitter state and with either manager: `emitInteger` is `EmitOpcode` of
+    `OP_STORE_INTk` for the `k` of `encodeInt v`, followed by `WriteOpcodeValue` of exactly the bytes of `encodeInt v`
+    (nothing for `OP_STORE_INT0`).  Hence `C03_literal_roundtrip` is about the bytes the emitter model writes. -/
+theorem C03_emit_model_literal_agrees (s : Emit.St) (v : BitVec 64) :
+    s.emitInteger v.toNat =
+      match (encodeInt v).bytes with
+      | [] => s.emitOp (storeIntOp (encodeInt v).k)
+      | b :: bs => s.emitOpBytes (storeIntOp (encodeInt v).k) (b :: bs) := by
+  have hv := v.isLt
+  unfold Emit.St.emitInteger encodeInt
+  by_cases h0 : v.toNat = 0
+  · simp [h0, emitZeroFirst, storeIntOp]
+  · simp only [h0, ↓reduceIte, emitZeroFirst, Bool.true_and, beq_iff_eq, emitBranches, emitElse, firstBranch]
+    by_cases h1 : v.toNat < 256
+    · simp [h1, storeIntOp, le_eq_toBytes, toBytes, Gen.EmitConsts.OP_STORE_INT0, Gen.EmitConsts.OP_STORE_INT1]
+    · by_cases h2 : v.toNat < 65536
+      · simp [h1, h2, storeIntOp, le_eq_toBytes, toBytes, Gen.EmitConsts.OP_STORE_INT0, Gen.EmitConsts.OP_STORE_INT2]
+      · by_cases h3 : v.toNat < 16777216
+        · simp [h1, h2, h3, storeIntOp, le_eq_toBytes, toBytes, Gen.EmitConsts.OP_STORE_INT0, Gen.EmitConsts.OP_STORE_INT3]
+        · by_cases h4 : v.toNat < 4294967296
+          · simp [h1, h2, h3, h4, storeIntOp, le_eq_toBytes, toBytes, Gen.EmitConsts.OP_STORE_INT0, Gen.EmitConsts.OP_STORE_INT4]
+          · simp [h1, h2, h3, h4, storeIntOp, le_eq_toBytes, toBytes]
+
+/-- the opcodes of the example above: 65536 is `OP_STORE_INT3 00 00 01` in the emitter model as well -/
+example (s : Emit.St) : s.emitInteger 65536 = s.emitOpBytes Gen.EmitConsts.OP_STORE_INT3 [0, 0, 1] := by
+  have := C03_emit_model_literal_agrees s 65536#64
+  simpa [storeIntOp, show encodeInt 65536#64 = ⟨3, [0, 0, 1]⟩ by decide, Gen.EmitConsts.OP_STORE_INT0,
+    Gen.EmitConsts.OP_STORE_INT3] using this
 
 /-- **C03, literal values (width).**  The encoding chosen is the smallest the emitter has that can
     hold the value: re-reading the literal from any smaller available width gives a different number. -/
